@@ -26,7 +26,7 @@ CORR_HEADER = ("From Coq Require Import ZArith QArith List String.\n"
                "From ACN Require Import Base.Num Model.Pilots.\nImport ListNotations.\n"
                "Open Scope string_scope.\nOpen Scope Z_scope.\nOpen Scope Q_scope.\n")
 CHECK_FN = "check_c04"
-RULE = ("stream run: 0-5 wide-range EVSEs registered in shuffled order, random non-overlapping sessions + Recompute "
+RULE = ("stream run: 3 fixed corpus scenarios (incl. the witness of the defect fixed in afd41a2), then 0-5 wide-range EVSEs registered in shuffled order, random non-overlapping sessions + Recompute "
         "events over a horizon of 1-24 periods, max_recompute in {None,1,2,5}; at every scheduler call a scripted "
         "submission: random subset of stations in shuffled dict order, length 1-12 / up to the horizon / beyond it / "
         "long in the queue-draining period, empty dict, rows as int / float / numpy.float64 lists, numpy arrays or "
@@ -364,12 +364,47 @@ def classify(sub, ids):
     return "ok"
 
 
-def gen_run_cases(rng, n):
-    cases = []
+def _row(num, vals, kind="float"):
+    return dict(station=name_of(num), kind=kind, vals=[float(v) for v in vals])
+
+
+# deterministic scenarios that are part of every run
+CORPUS = [
+    # the defect fixed by /repo commit afd41a2: a schedule reaching beyond the allocated matrix, submitted in the
+    # period that drains the event queue (get_last_timestamp() is None there)
+    dict(stations=[7], sessions=[dict(station=7, arrival=0, departure=2, energy=5)], recomputes=[],
+         max_recompute=None, constraints=[],
+         script=[[_row(7, [16, 16])], [_row(7, [8, 8, 8, 8, 8], "int")]]),
+    # overlay: a long schedule, then a shorter one that omits a station, then an empty one
+    dict(stations=[9, 4], sessions=[dict(station=4, arrival=0, departure=6, energy=5)], recomputes=[2, 3],
+         max_recompute=None, constraints=[[10, [9, 4]]],
+         script=[[_row(4, [1, 2, 3, 4, 5, 6]), _row(9, [7, 7, 7, 7, 7, 7], "np64")], [_row(9, [30.5, 31.5], "array")],
+                 [], [_row(4, [12.125])]]),
+    # max_recompute = 1: a submission in every period, each one period long, stations in reverse order
+    dict(stations=[3, 2, 1], sessions=[dict(station=2, arrival=1, departure=4, energy=5)], recomputes=[],
+         max_recompute=1, constraints=[],
+         script=[[_row(1, [k]), _row(2, [k + 0.5]), _row(3, [k + 0.25], "np32")] for k in range(8)]),
+]
+
+
+def corpus_cases():
+    out = []
+    for sc in CORPUS:
+        base = {k: v for k, v in sc.items() if k != "script"}
+        script = sc["script"]
+        impl = run_sim(base, lambda k, it, w, d, script=script: script[k] if k < len(script) else [])
+        c = run_case(base, impl)
+        c["kind"] = "corpus/" + c["kind"]
+        out.append(c)
+    return out
+
+
+def gen_run_cases(rng, n, corpus=False):
+    cases = corpus_cases() if corpus else []
     while len(cases) < n:
         inp = rand_run_input(rng)
-        bad_at = rng.choice([None] * 9 + [rng.randint(0, 6)])      # ~10% of the runs contain a malformed submission
-        bad_kind = rng.choice(["unknown", "ragged", "both"])
+        bad_at = rng.choice([None] * 6 + [rng.randint(0, 6)])      # ~14% of the runs contain a malformed submission
+        bad_kind = rng.choice(["unknown", "ragged", "ragged", "both"])
 
         def provider(k, it, width, drained, inp=inp, bad_at=bad_at, bad_kind=bad_kind):
             return rand_submission(rng, inp["stations"], it, width, drained,
@@ -509,7 +544,7 @@ def incw_case(rng):
 # the harness interface
 # ---------------------------------------------------------------------------------------------
 def gen_cases(rng, n, tier):
-    return gen_run_cases(rng, n)
+    return gen_run_cases(rng, n, corpus=True)
 
 
 def gen_upd_cases(rng, n):
